@@ -1,0 +1,26 @@
+//go:build verif
+
+package gmtls
+
+// Hooks for the verification harness (build tag "verif" only): the two places where gmtls drives
+// SM3 through crypto/hmac - the GMSSL PRF (prf12(sm3.New)) and the record MAC of the SM3 suites.
+
+// VerifPrfSM3 returns n bytes of the GMSSL PRF for (secret, label, seed).
+func VerifPrfSM3(n int, secret, label, seed []byte) []byte {
+	result := make([]byte, n)
+	prfAndHashForGM()(result, secret, label, seed)
+	return result
+}
+
+// VerifMacSM3 wraps the macFunction that macSM3 returns for key.
+type VerifMacSM3 struct{ m macFunction }
+
+func VerifNewMacSM3(key []byte) *VerifMacSM3 { return &VerifMacSM3{macSM3(VersionGMSSL, key)} }
+
+// MAC calls tls10MAC.MAC; digestBuf has spare capacity as in halfConn, extra may be nil.
+func (v *VerifMacSM3) MAC(seq, header, data, extra []byte) []byte {
+	buf := make([]byte, 0, 64)
+	return append([]byte{}, v.m.MAC(buf, seq, header, data, extra)...)
+}
+
+func (v *VerifMacSM3) Size() int { return v.m.Size() }
